@@ -66,10 +66,10 @@ class Boom(BaseException):
 
 
 def plan(tier, seed):
-    n = 70 if tier == "quick" else 10800
+    n = 140 if tier == "quick" else 10800
     cases = [{"kind": "seq", "k": k, "seed": seed} for k in range(n)]
-    cases += [{"kind": "threads", "k": k, "seed": seed} for k in range(2 if tier == "quick" else 360)]
-    cases += [{"kind": "asyncio", "k": k, "seed": seed} for k in range(2 if tier == "quick" else 360)]
+    cases += [{"kind": "threads", "k": k, "seed": seed} for k in range(4 if tier == "quick" else 360)]
+    cases += [{"kind": "asyncio", "k": k, "seed": seed} for k in range(4 if tier == "quick" else 360)]
     return cases
 
 
